@@ -1641,7 +1641,13 @@ func (g *FnGen) next(in *ssa.Next, st *State, reach string) {
 func (g *FnGen) zeroGhosts(st *State, elem types.Type, ref Term, depth int) {
 	w := g.w
 	tn := namedName(elem)
-	for name, gf := range w.ghosts {
+	var gnames []string
+	for name := range w.ghosts {
+		gnames = append(gnames, name)
+	}
+	sort.Strings(gnames) // deterministic query text
+	for _, name := range gnames {
+		gf := w.ghosts[name]
 		if !strings.HasPrefix(name, tn+".") || name[len(tn)+1:] != gf.Field {
 			continue
 		}
